@@ -53,6 +53,9 @@ def regularized_inversion(m, eps):
 
 
 def evolve_tdvp_vmf(ttns: TTNS, ttno: TTNO, coeff: Union[complex, float], tau: float, first_step=None):
+    # the projectors in the equations of motion assume the canonical form, as in the projector splitting schemes
+    ttns.check_canonical()
+
     def ivp_func(t, params):
         ttns_t = TTNS.from_tensors(ttns, params)
         return coeff * time_derivative_vmf(ttns_t, ttno)
